@@ -93,6 +93,18 @@ const CONTEXTS: &[(char, &str, char)] = &[
     ('S', "x={} * 'a;b';", 'O'),
     ('A', "a {}", 'A'),
     ('A', "{},b", 'A'),
+    // a parenthesis group around a hole, and a hole followed by one more section boundary
+    // (macro variable, quoted literal, comment, nested call): with a hole that itself ends in a
+    // boundary this gives groups whose '(' and ')' lie in different sections of the text scanners
+    ('T', "({})", 'T'),
+    ('T', "({}) &w", 'T'),
+    ('T', "({}) %n(p) z", 'T'),
+    ('T', "({})/*d*/ 'r'", 'T'),
+    ('A', "({}) &w", 'A'),
+    ('A', "({})/*d*/ \"r\"", 'A'),
+    ('N', "({})", 'N'),
+    ('N', "({})/*d*/ 'r'", 'N'),
+    ('N', "({}) \"r\" z", 'N'),
     ('Q', "a{}b", 'Q'),
     ('Q', "{}", 'T'),
     ('V', "&p{}", 'V'),
@@ -118,7 +130,7 @@ const LEAVES: &[(char, &[&str])] = &[
     ('F', &["1", "&v", "a", "%m(1)", "'s'", "1.5"]),
     ('A', &["a", "&v", "a b", "(1,2)", "'a,b'", ""]),
     ('Q', &["a", "&v", "&v.x", "%m(1)", " ", ""]),
-    ('N', &["a", "%let x=1;", "&v", "a,b"]),
+    ('N', &["a", "%let x=1;", "&v", "a,b", "'q'", "/*c*/", "\"q\" x"]),
     (
         'V',
         &[
@@ -361,6 +373,11 @@ pub fn rare_contexts() -> Vec<(char, String, char)> {
         ('S', "%if &a %then %do;~{} %end;~%else %do; x=2; %end;", 'S'),
         ('S', "%if &a %then {} %else %put n;", 'S'),
         ('S', "%macro q; %if &a %then %do;~{} %end; %else %put n; %mend;", 'S'),
+        // a block that starts at a statement start and ends in an unterminated open-code fragment:
+        // the statement-pending flag of the block must not leak across its %end (C15)
+        ('S', "%do;~{} x %end~;", 'S'),
+        ('S', "%if &a %then %do;~{} set y %end;", 'S'),
+        ('S', "%macro q; %do;~{} x %end; %mend;", 'S'),
     ]
     .iter()
     .map(|(a, b, c)| (*a, (*b).to_string(), *c))
@@ -798,6 +815,78 @@ fn gap(filler: &str) -> Piece {
 
 /// argument value shapes; `top_comma` = the shape contains a top-level comma
 fn value_shapes() -> Vec<(Vec<Piece>, bool)> {
+    let mut v = base_value_shapes();
+    v.extend(split_group_shapes());
+    v
+}
+
+/// Number of shapes that take part in the full cross product of argument lists; the shapes after
+/// them ("rare") are placed in every argument position once, next to plain values only.
+fn n_base_shapes() -> usize {
+    base_value_shapes().len()
+}
+
+/// A parenthesis group whose `(` and `)` fall into different text sections of the scanner (a
+/// section ends at a macro variable, a quoted literal, a comment or a nested call), followed by
+/// one more section boundary before the argument ends - as a plain value and as the text of
+/// `%str` / `%nrstr`. Every (boundary inside the group, boundary after the group) pair.
+fn split_group_shapes() -> Vec<(Vec<Piece>, bool)> {
+    let inner: [Vec<Piece>; 5] = [
+        vec![other("&v")],
+        vec![other("\"x\"")],
+        vec![other("/*c*/")],
+        vec![other("%n"), delim("(", T::LPAREN), delim(")", T::RPAREN)],
+        vec![masked("'q,r'")],
+    ];
+    let after: [Vec<Piece>; 6] = [
+        vec![other(" &w")],
+        vec![other(" \"y\"")],
+        vec![other("/*d*/z")],
+        vec![other(" %n"), delim("(", T::LPAREN), other("p"), delim(")", T::RPAREN)],
+        vec![other(" "), masked("'r=s'")],
+        vec![],
+    ];
+    let mut out = Vec::new();
+    for host in 0..3 {
+        for (ii, i) in inner.iter().enumerate() {
+            for (ai, a) in after.iter().enumerate() {
+                // inside %nrstr a call is text: its parentheses are not tokens
+                let textify = |pcs: &Vec<Piece>| -> Vec<Piece> {
+                    if host == 2 {
+                        pcs.iter().map(|pc| if matches!(pc.kind, Kind::Delim(..)) { masked(&pc.text) } else { pc.clone() }).collect()
+                    } else {
+                        pcs.clone()
+                    }
+                };
+                let mut v: Vec<Piece> = Vec::new();
+                match host {
+                    1 => {
+                        v.push(other("%str"));
+                        v.push(hdelim("(", T::LPAREN));
+                    }
+                    2 => {
+                        v.push(other("%nrstr"));
+                        v.push(hdelim("(", T::LPAREN));
+                    }
+                    _ => {}
+                }
+                // two groups deep when both indices are odd, so that a section may close two levels
+                let deep = ii % 2 == 1 && ai % 2 == 1;
+                v.push(masked(if deep { "((" } else { "(" }));
+                v.extend(textify(i));
+                v.push(masked(if deep { ",b) c=d)" } else { ",b)" }));
+                v.extend(textify(a));
+                if host > 0 {
+                    v.push(hdelim(")", T::RPAREN));
+                }
+                out.push((v, false));
+            }
+        }
+    }
+    out
+}
+
+fn base_value_shapes() -> Vec<(Vec<Piece>, bool)> {
     vec![
         (vec![other("w")], false),
         (vec![other("a b")], false),
@@ -854,7 +943,8 @@ enum ArgModel {
 fn arg_lists(model: ArgModel, max_args: usize) -> Vec<Vec<(bool, usize)>> {
     // (named?, shape index)
     let shapes = value_shapes();
-    let ns = shapes.len();
+    let n_all = shapes.len();
+    let ns = n_base_shapes();
     // a value with a top-level '=' would itself be a named argument where names are allowed
     let mut per_arg: Vec<(bool, usize)> = (0..ns).filter(|s| !(model == ArgModel::Named && shapes[*s].1)).map(|s| (false, s)).collect();
     if model == ArgModel::Named {
@@ -878,6 +968,22 @@ fn arg_lists(model: ArgModel, max_args: usize) -> Vec<Vec<(bool, usize)>> {
         }
         out.extend(next.iter().cloned());
         level = next;
+    }
+    // the rare shapes: alone, and in either position next to the plain value `w`
+    for r in ns..n_all {
+        let mut kinds = vec![false];
+        if model == ArgModel::Named {
+            kinds.push(true);
+        }
+        for named in kinds {
+            if max_args >= 1 {
+                out.push(vec![(named, r)]);
+            }
+            if max_args >= 2 {
+                out.push(vec![(false, 0), (named, r)]);
+                out.push(vec![(named, r), (named, 0)]);
+            }
+        }
     }
     out
 }
